@@ -12,6 +12,9 @@ use std::sync::Mutex;
 pub struct IoPlan {
     /// Pipe personality: reads on fd 0 are served from this buffer.
     pub stdin_data: Option<Vec<u8>>,
+    /// Pipe personality: the buffer is delivered this many times in a row (0 and 1: once). Streams of
+    /// several GiB without holding them in memory.
+    pub stdin_repeat: u64,
     /// File personality: (st_dev, st_ino) of the input file; reads on a descriptor referring to it
     /// are subject to the read plan.
     pub input_file: Option<(u64, u64)>,
@@ -195,7 +198,8 @@ pub fn on_read(fd: i32, buf: &mut [u8], is_input_file: bool, file_pos: Option<u6
                 return ReadAction::Fail(EIO);
             }
         }
-        let data_len = st.plan.stdin_data.as_ref().unwrap().len();
+        let one_len = st.plan.stdin_data.as_ref().unwrap().len();
+        let data_len = one_len.saturating_mul(st.plan.stdin_repeat.max(1) as usize);
         let mut end = data_len;
         if let Some(e) = st.plan.eof_at {
             if (e as usize) < end {
@@ -225,7 +229,17 @@ pub fn on_read(fd: i32, buf: &mut [u8], is_input_file: bool, file_pos: Option<u6
         }
         if n > 0 {
             let data = st.plan.stdin_data.as_ref().unwrap();
-            buf[..n].copy_from_slice(&data[pos..pos + n]);
+            if st.plan.stdin_repeat <= 1 {
+                buf[..n].copy_from_slice(&data[pos..pos + n]);
+            } else {
+                let mut done = 0;
+                while done < n {
+                    let at = (pos + done) % one_len;
+                    let k = (n - done).min(one_len - at);
+                    buf[done..done + k].copy_from_slice(&data[at..at + k]);
+                    done += k;
+                }
+            }
         }
         st.stdin_pos += n;
         st.counters.input_bytes += n as u64;
